@@ -486,10 +486,24 @@ pub(crate) fn fmt_float(f: &mut fmt::Formatter, v: f64) -> fmt::Result {
   }
 }
 
+/// Writes a text string value as a CDDL text literal, re-escaping the two
+/// characters that cannot appear unescaped between the quotes.
+pub(crate) fn fmt_text(f: &mut fmt::Formatter, text: &str) -> fmt::Result {
+  f.write_str("\"")?;
+  for c in text.chars() {
+    match c {
+      '"' => f.write_str("\\\"")?,
+      '\\' => f.write_str("\\\\")?,
+      c => fmt::Write::write_char(f, c)?,
+    }
+  }
+  f.write_str("\"")
+}
+
 impl fmt::Display for Value<'_> {
   fn fmt(&self, f: &mut fmt::Formatter) -> fmt::Result {
     match self {
-      Value::TEXT(text) => write!(f, "\"{}\"", text),
+      Value::TEXT(text) => fmt_text(f, text),
       Value::INT(i) => write!(f, "{}", i),
       Value::UINT(ui) => write!(f, "{}", ui),
       Value::FLOAT(float) => fmt_float(f, *float),
